@@ -1,8 +1,7 @@
 (* Whatever the floating-point solvers and the rational re-solve answer, the
-   driver hands out OPTIMAL / INFEASIBLE through any exit other than ladder
-   exhaustion only together with data that passed opt_test / infeas_test.
-   On the exhaustion path the status variable is simply whatever was left in
-   it: both full statements are refuted below by explicit oracles. *)
+   driver hands out OPTIMAL only together with a cache that passed opt_test and
+   INFEASIBLE only together with a vector that passed infeas_test - on every
+   exit, ladder exhaustion included. *)
 From QSX Require Export LP.Driver LP.OptTestSound.
 From Coq Require Import ZArith.
 Local Open Scope Q_scope.
@@ -23,10 +22,9 @@ Section DriverSound.
     r_rval r = false -> r_status r = StInfeasible ->
     exists y, r_y r = Some y /\ itest y = true.
 
-  Definition good (r : dres) : Prop :=
-    r_exit r <> ExitLadderExhausted /\ certified_opt r /\ certified_inf r.
+  Definition good (r : dres) : Prop := certified_opt r /\ certified_inf r.
 
-  Ltac bad_status := split; [discriminate|split; intros H1 H2; simpl in *; try discriminate].
+  Ltac bad_status := split; intros H1 H2; simpl in *; try discriminate.
 
   Lemma handle_ok lvl o st :
     match handle otest itest basis_status lvl o st with
@@ -57,77 +55,75 @@ Section DriverSound.
 
   Lemma mpf_loop_ok lvls : forall st,
     let r := mpf_loop otest itest float_solve basis_status ebasis lvls st in
-    r_exit r = ExitLadderExhausted \/ good r.
+    good r.
   Proof.
     induction lvls as [|l ls IH]; intros st; simpl.
-    - left. reflexivity.
+    - split; intros _ H; simpl in H; destruct (st_status st); simpl in H; discriminate.
     - unfold mpf_stage.
       match goal with |- context [f_fail ?o] => destruct (f_fail o) end; [apply IH|].
       match goal with |- context [handle otest itest basis_status l ?o ?s] =>
         pose proof (handle_ok l o s) as H; destruct (handle otest itest basis_status l o s) as [st'|r] end.
       + apply IH.
-      + right. exact H.
+      + exact H.
   Qed.
 
   Theorem exact_solver_ok a :
     let r := exact_solver_gen otest itest float_solve basis_status ebasis max_iter a in
-    r_exit r = ExitLadderExhausted \/ good r.
+    good r.
   Proof.
     unfold exact_solver_gen, dbl_stage.
     destruct (f_fail (float_solve O ebasis a)); [apply mpf_loop_ok|].
     match goal with |- context [handle otest itest basis_status O ?o ?s] =>
       pose proof (handle_ok O o s) as H; destruct (handle otest itest basis_status O o s) as [st'|r] end.
     - apply mpf_loop_ok.
-    - right. exact H.
+    - exact H.
   Qed.
 
 End DriverSound.
 
-Corollary driver_optimal_sound_partial M P ns float_solve basis_status ebasis max_iter a :
+Corollary driver_optimal_sound M P ns float_solve basis_status ebasis max_iter a :
   let r := exact_solver M P ns float_solve basis_status ebasis max_iter a in
-  r_exit r <> ExitLadderExhausted -> r_rval r = false -> r_status r = StOptimal ->
+  r_rval r = false -> r_status r = StOptimal ->
   exists s B ps ds, r_sol r = Some s /\ opt_test P ns B ps ds = Some s.
 Proof.
-  intros r Hx. destruct (exact_solver_ok (opt_test P ns) (infeas_test M P) float_solve basis_status ebasis max_iter a)
-    as [E|(_ & G & _)]; [contradiction|]. exact G.
+  intros r. destruct (exact_solver_ok (opt_test P ns) (infeas_test M P) float_solve basis_status ebasis max_iter a)
+    as [G _]. exact G.
 Qed.
 
-Corollary driver_infeasible_sound_partial M P ns float_solve basis_status ebasis max_iter a :
+Corollary driver_infeasible_sound M P ns float_solve basis_status ebasis max_iter a :
   let r := exact_solver M P ns float_solve basis_status ebasis max_iter a in
-  r_exit r <> ExitLadderExhausted -> r_rval r = false -> r_status r = StInfeasible ->
+  r_rval r = false -> r_status r = StInfeasible ->
   exists y, r_y r = Some y /\ infeas_test M P y = true.
 Proof.
-  intros r Hx. destruct (exact_solver_ok (opt_test P ns) (infeas_test M P) float_solve basis_status ebasis max_iter a)
-    as [E|(_ & _ & G)]; [contradiction|]. exact G.
+  intros r. destruct (exact_solver_ok (opt_test P ns) (infeas_test M P) float_solve basis_status ebasis max_iter a)
+    as [_ G]. exact G.
 Qed.
 
-(* ---- refutation of the full statements (model level) ------------------------ *)
-(* The empty LP (no rows, no columns) is feasible with optimum 0.  Oracles:
-   every float solve says INFEASIBLE with an (empty) vector that fails the test,
-   the rational re-solve says OPTIMAL: the driver leaves through ladder
-   exhaustion with rval = 0 and status OPTIMAL, no solution attached.
-   With the re-solve answering INFEASIBLE after an OPTIMAL float answer it
-   leaves with status INFEASIBLE although the LP is feasible. *)
+(* ---- non-vacuity: oracles under which each kind of exit is taken ------------- *)
 Definition P0 : ilp := {| i_max := false; i_cols := []; i_rhs := [] |}.
-Definition B0 : basis := {| cstat := [BOther]; rstat := [] |}.   (* never accepted by opt_test *)
+Definition Bbad : basis := {| cstat := [BOther]; rstat := [] |}.   (* never accepted by opt_test *)
+Definition Bok : basis := {| cstat := []; rstat := [] |}.
+Definition fs_opt (b : basis) (_ : nat) (_ : option basis) (_ : algo) : fout :=
+  {| f_fail := false; f_status := StOptimal; f_iter := 1%nat; f_x := []; f_y := []; f_basis := b; f_infeas := None |}.
 Definition fs_inf (_ : nat) (_ : option basis) (_ : algo) : fout :=
-  {| f_fail := false; f_status := StInfeasible; f_iter := 1%nat; f_x := []; f_y := []; f_basis := B0; f_infeas := Some [] |}.
-Definition bs_opt (_ : basis) : eout :=
-  {| e_fail := false; e_status := StOptimal; e_x := []; e_y := []; e_infeas := None |}.
-Definition fs_opt (_ : nat) (_ : option basis) (_ : algo) : fout :=
-  {| f_fail := false; f_status := StOptimal; f_iter := 1%nat; f_x := []; f_y := []; f_basis := B0; f_infeas := None |}.
-Definition bs_inf (_ : basis) : eout :=
-  {| e_fail := false; e_status := StInfeasible; e_x := []; e_y := []; e_infeas := Some [] |}.
+  {| f_fail := false; f_status := StInfeasible; f_iter := 1%nat; f_x := []; f_y := []; f_basis := Bbad; f_infeas := Some [] |}.
+Definition bs (st : lpstat) (_ : basis) : eout :=
+  {| e_fail := false; e_status := st; e_x := []; e_y := []; e_infeas := Some [] |}.
 
-Lemma P0_feasible : feasible inf_none P0 (fun _ => 0).
-Proof. split; intros i Hi; unfold nrows, ncols, P0 in Hi; simpl in Hi; lia. Qed.
+Example exit_test_optimal :
+  let r := exact_solver 1 P0 0 (fs_opt Bok) (bs StOptimal) None 12 PrimalS in
+  r_rval r = false /\ r_status r = StOptimal /\ r_exit r = ExitTest 0.
+Proof. vm_compute. repeat split. Qed.
 
-Theorem driver_optimal_refuted :
-  exists fs bs, let r := exact_solver 1 P0 0 fs bs None 12 PrimalS in
-    r_rval r = false /\ r_status r = StOptimal /\ r_sol r = None.
-Proof. exists fs_inf, bs_opt. vm_compute. repeat split. Qed.
+(* the situations in which the original code left OPTIMAL / INFEASIBLE behind without a
+   certificate (float INFEASIBLE + rational OPTIMAL, float OPTIMAL + rational INFEASIBLE)
+   now end as UNSOLVED *)
+Example exhausted_after_inf_opt :
+  let r := exact_solver 1 P0 0 fs_inf (bs StOptimal) None 12 PrimalS in
+  r_rval r = false /\ r_status r = StUnsolved /\ r_exit r = ExitLadderExhausted.
+Proof. vm_compute. repeat split. Qed.
 
-Theorem driver_infeasible_refuted :
-  exists fs bs, let r := exact_solver 1 P0 0 fs bs None 12 PrimalS in
-    r_rval r = false /\ r_status r = StInfeasible /\ r_y r = None /\ feasible inf_none P0 (fun _ => 0).
-Proof. exists fs_opt, bs_inf. split; [vm_compute; reflexivity|]. split; [vm_compute; reflexivity|]. split; [vm_compute; reflexivity|]. exact P0_feasible. Qed.
+Example exhausted_after_opt_inf :
+  let r := exact_solver 1 P0 0 (fs_opt Bbad) (bs StInfeasible) None 12 PrimalS in
+  r_rval r = false /\ r_status r = StUnsolved /\ r_exit r = ExitLadderExhausted.
+Proof. vm_compute. repeat split. Qed.
